@@ -207,6 +207,8 @@ class TaskScenario(ScenarioData):
 
         These are tasks T where T's dependencies include this task.
         """
+        # A dependency on an enclosing container is a dependency on this task too
+        targets = [self.property, *self.property.ancestors()]
         successors = []
         for task in self.project.tasks:
             if not task.leaf():
@@ -220,7 +222,7 @@ class TaskScenario(ScenarioData):
                 else:
                     pred = dep
 
-                if pred is self.property:
+                if any(pred is target for target in targets):
                     successors.append(task)
                     break
 
@@ -574,8 +576,9 @@ class TaskScenario(ScenarioData):
                         if succ_start:
                             # Honour the gap requested on the successor's dependency:
                             # this task must end that much before the successor starts.
+                            targets = [self.property, *self.property.ancestors()]
                             for dep in successor.get("depends", self.scenarioIdx) or []:
-                                if isinstance(dep, dict) and dep.get("task") is self.property:
+                                if isinstance(dep, dict) and any(dep.get("task") is t for t in targets):
                                     if dep.get("gapduration") and not dep.get("onstart"):
                                         from datetime import timedelta
 
